@@ -24,7 +24,8 @@ RULE = ('histories of export / re-export (another object at an exported path) / 
         'each with all interfaces of that object and exactly its readable properties with current values (strict '
         'reference decode); every export / unexport emitted exactly one InterfacesAdded / InterfacesRemoved naming that '
         'path and interface set. Non-trivial = the exported set contains a textual-but-not-segment prefix pair or a '
-        'grandchild without its parent; distinct = distinct history JSON. The two interfaces share one property NAME (Rw: i on T1, s on T2).')
+        'grandchild without its parent; distinct = distinct history JSON. The two interfaces share one property NAME (Rw: i on T1, s on T2); '
+        'class variant 3 re-declares the first of its two inherited interfaces by name and inherits the second.')
 ASSUMPTIONS = ['properties are assigned before export; only exported paths are unexported']
 
 POOL = ['/', '/a', '/a/b', '/a/bc', '/a/b/c', '/a/b/c/d', '/ab', '/a_b', '/b']
@@ -43,7 +44,8 @@ class _Conn:
 
 def _make_class(variant):
     """0: one interface; 1: two interfaces, and the object is falsy (defines __len__ -> 0); 2: a subclass of 0 that adds a property to the *inherited* interface and
-    brings a second interface of its own (one interface populated at two levels of the class hierarchy)."""
+    brings a second interface of its own (one interface populated at two levels of the class hierarchy); 3: a subclass
+    that declares the FIRST of its base's two interfaces again, by name, and inherits the second."""
     from txdbus import interface as I
     from txdbus import objects as O
     i1 = I.DBusInterface('org.verif.T1', I.Method('Poke', '', 's'),
@@ -64,6 +66,19 @@ def _make_class(variant):
         ns['dbusInterfaces'] = [i1, i2]
         ns['__len__'] = lambda self: 0      # an exported object may be an (empty) container: false in a boolean context
         return type('Tree1', (O.DBusObject,), ns)
+    if variant == 3:
+        # the base class lists [T1, T2]; the subclass declares T1 AGAIN (a newer edition with one more method) and
+        # nothing else: the object has T1 and - inherited - T2
+        ns = dict(base_ns)
+        ns['Num'] = O.DBusProperty('Num')
+        ns['Quiet'] = O.DBusProperty('Quiet')
+        ns['Rw2'] = O.DBusProperty('Rw', 'org.verif.T2')
+        ns['dbusInterfaces'] = [i1, i2]
+        base3 = type('Tree3Base', (O.DBusObject,), ns)
+        i1b = I.DBusInterface('org.verif.T1', I.Method('Poke', '', 's'), I.Method('Poke2', '', 's'),
+                              I.Property('Ro', 's'), I.Property('Rw', 'i', writeable=True),
+                              I.Property('Wo', 's', readable=False, writeable=True), I.Property('Late', 's'), noRegister=True)
+        return type('Tree3', (base3,), {'dbusInterfaces': [i1b], 'dbus_Poke2': lambda self: 'poked twice'})
     base = type('Tree2Base', (O.DBusObject,), base_ns)
     return type('Tree2', (base,), {'Late': O.DBusProperty('Late', 'org.verif.T1'), 'Num': O.DBusProperty('Num'),
                                    'Quiet': O.DBusProperty('Quiet'), 'Rw2': O.DBusProperty('Rw', 'org.verif.T2'),
@@ -119,7 +134,7 @@ def run_history(case):
     from txdbus import objects as O
     out = []
     try:
-        classes = {0: _make_class(0), 1: _make_class(1), 2: _make_class(2)}
+        classes = {0: _make_class(0), 1: _make_class(1), 2: _make_class(2), 3: _make_class(3)}
         conn = _Conn()
         h = O.DBusObjectHandler(conn)
         model = {}     # path -> (variant, stamp, path)
@@ -173,7 +188,7 @@ def run_history(case):
                 model[path] = (0, si, path, {})
                 del conn.sent[:]
             elif kind == 'export':
-                variant = op[2] % 3
+                variant = op[2] % 4
                 stamp = si
                 if len(op) > 3 and op[3] and path in parked and path not in model:
                     # the very instance that was exported and unexported before goes back
@@ -220,8 +235,10 @@ def run_history(case):
                     try:
                         d = R.decode_message(sigs[0].rawMessage)
                         want = {'org.verif.T1', PROPS} | ({'org.verif.T2'} if variant >= 1 else set())
+                        # (an interface declared at two levels of the hierarchy - variant 3 - may be NAMED twice; the
+                        # statement asks for the interfaces to be named, not for a duplicate-free list)
                         ok = (d['type'] == 4 and d['fields'].get(3) == 'InterfacesRemoved' and d['body'][0] == path
-                              and set(d['body'][1]) == want and len(d['body'][1]) == len(want))
+                              and set(d['body'][1]) == want and (variant == 3 or len(d['body'][1]) == len(want)))
                     except Exception:
                         ok = False
                 if not ok:
@@ -381,7 +398,7 @@ def enum_histories(tier):
                         break
                     cur.discard(i)
             if ok:
-                yield {'pool': SMALL, 'ops': [[k, i, (i + idx) % 3] for idx, (k, i) in enumerate(seq)]}
+                yield {'pool': SMALL, 'ops': [[k, i, (i + idx) % 4] for idx, (k, i) in enumerate(seq)]}
                 seen, again = set(), False
                 for k, i in seq:
                     if k == 'unexport':
@@ -390,18 +407,18 @@ def enum_histories(tier):
                         again = True
                 if again:
                     # the same history with the unexported instance itself exported again (not a fresh object)
-                    yield {'pool': SMALL, 'ops': [[k, i, (i + idx) % 3, 1] for idx, (k, i) in enumerate(seq)]}
+                    yield {'pool': SMALL, 'ops': [[k, i, (i + idx) % 4, 1] for idx, (k, i) in enumerate(seq)]}
 
 
 def enum_broken(tier):
-    for variant in (0, 1, 2):
+    for variant in (0, 1, 2, 3):
         yield {'pool': SMALL, 'ops': [['export', 1, 0], ['export', 2, variant], ['export_broken', 2, 0], ['unexport', 2, 0],
                                       ['export', 2, variant], ['export_broken', 1, 0]]}
 
 
 def enum_setprop(tier):
     """Parent and child exported, a property of the child (announcing or silent) changed afterwards, parent queried."""
-    for variant in (0, 1, 2):
+    for variant in (0, 1, 2, 3):
         for which in (0, 1):
             for tail in ([], [['export', 0, 0]], [['unexport', 1, 0], ['export', 1, variant, 1]]):
                 yield {'pool': SMALL, 'ops': [['export', 0, 0], ['export', 1, variant], ['setprop', 1, which]] + tail +
@@ -414,7 +431,7 @@ def random_history(draw, tier):
     for _ in range(draw(st.integers(1, 30))):
         ops.append([draw(st.sampled_from(['export', 'export', 'export', 'export', 'unexport', 'unexport', 'setprop', 'export_broken'])),
                     draw(st.integers(0, len(POOL) - 1)),
-                    draw(st.integers(0, 2)), draw(st.integers(0, 1))])
+                    draw(st.integers(0, 3)), draw(st.integers(0, 1))])
     return {'pool': POOL, 'ops': ops}
 
 
